@@ -61,6 +61,12 @@ XYZ = "xyz"
 ALL = T("slice", tm.NONE, tm.NONE, tm.NONE)
 
 
+def _helpers(f) -> bool:
+    """module-private helpers of plot.py are looked through"""
+    return f.module.name == "evo.tools.plot" and f.cls is None and \
+        f.name.startswith("_") and f.name != "_get_length_formatter"
+
+
 def _col(base: T, idx: T) -> T:
     return tm.sub(base, T("tuple", ALL, idx))
 
@@ -84,7 +90,7 @@ def check(ctx):
         ctx.require(all(c in XYZ for c in m) and len(m) in (2, 3),
                     f"PlotMode.{m}: unexpected name")
         want = (XYZ.index(m[0]), XYZ.index(m[1]), 2 if len(m) == 3 else None)
-        r = Interp(prog).run(f_idx, {"plot_mode": tm.enum(pmq, m)})
+        r = Interp(prog, inline=_helpers).run(f_idx, {"plot_mode": tm.enum(pmq, m)})
         ctx.analysed["configs"] += 1
         ret = r.ret
         got = tuple(a.args[1] if tm.is_const(a) else "?" for a in ret.args) \
@@ -96,7 +102,7 @@ def check(ctx):
                f"x-axis <- {m[0]}, y-axis <- {m[1]}"
                f"{', z-axis <- z' if len(m) == 3 else ''}: {want}",
                key=f"C20.1:idx:{m}")
-        r = Interp(prog).run(f_ax, {"plot_mode": tm.enum(pmq, m)})
+        r = Interp(prog, inline=_helpers).run(f_ax, {"plot_mode": tm.enum(pmq, m)})
         labels = {}
         for e in r.of_kind("call"):
             n = e.data.get("name") or ""
@@ -136,7 +142,7 @@ def check(ctx):
 # --------------------------------------------------------------------- C20.2
 def _traj(ctx, prog):
     f = prog.func(PL + "traj")
-    r = Interp(prog).run(f)
+    r = Interp(prog, inline=_helpers).run(f)
     mode = tm.param("plot_mode")
     PMI = tm.call(tm.func(PL + "plot_mode_to_idx"), (mode,), ())
     pos = tm.attr(tm.param("traj"), "positions_xyz")
@@ -161,7 +167,7 @@ def _traj(ctx, prog):
                f"axis k must show positions[:, plot_mode_to_idx(mode)[k]]",
                key=f"C20.2:traj:{'3d' if three else '2d'}")
     g = prog.func(PL + "add_start_end_markers")
-    rg = Interp(prog).run(g)
+    rg = Interp(prog, inline=_helpers).run(g)
     sc = [e for e in rg.of_kind("call") if e.data.get("name") == ".scatter"]
     ctx.require(len(sc) == 2, "add_start_end_markers: scatter calls not "
                 "found")
@@ -196,7 +202,7 @@ def _traj(ctx, prog):
 # --------------------------------------------------------------------- C20.3
 def _segments(ctx, prog):
     f = prog.func(PL + "colored_line_collection")
-    r = Interp(prog).run(f)
+    r = Interp(prog, inline=_helpers).run(f)
     mode = tm.param("plot_mode")
     PMI = tm.call(tm.func(PL + "plot_mode_to_idx"), (mode,), ())
     xyz, step = tm.param("xyz"), tm.param("step")
@@ -254,7 +260,7 @@ def _segments(ctx, prog):
                "order", key=f"C20.3:colors:{'3d' if three else '2d'}",
                nontrivial=False)
     g = prog.func(PL + "traj_colormap")
-    rg = Interp(prog).run(g)
+    rg = Interp(prog, inline=_helpers).run(g)
     cl = rg.calls(PL + "colored_line_collection")
     ok = False
     if len(cl) == 1:
@@ -272,7 +278,7 @@ def _segments(ctx, prog):
            "traj_colormap: colours / positions handed to the line "
            "collection deviate", key="C20.3:colormap")
     h = prog.func(PL + "draw_correspondence_edges")
-    rh = Interp(prog).run(h)
+    rh = Interp(prog, inline=_helpers).run(h)
     cl = rh.calls(PL + "colored_line_collection")
     ok = False
     if len(cl) == 1:
@@ -296,7 +302,7 @@ def _segments(ctx, prog):
 
 def _markers(ctx, prog):
     f = prog.func(PL + "draw_coordinate_axes")
-    r = Interp(prog).run(f)
+    r = Interp(prog, inline=_helpers).run(f)
     cl = r.calls(PL + "colored_line_collection")
     ctx.require(len(cl) == 1, "draw_coordinate_axes: line collection call "
                 "not found")
@@ -388,12 +394,6 @@ def _ordered(t: T) -> List[T]:
 
 
 # --------------------------------------------------------------------- C20.4
-def _helpers(f) -> bool:
-    """module-private helpers of plot.py are looked through"""
-    return f.module.name == "evo.tools.plot" and f.cls is None and \
-        f.name.startswith("_") and f.name != "_get_length_formatter"
-
-
 def _time_axes(ctx, prog):
     tr = tm.param("traj")
     ts = tm.attr(tr, "timestamps")
@@ -508,7 +508,7 @@ def _formatter(ctx, prog):
                 if is_call_to(t, "builtins.isinstance"):
                     return True
                 return None
-            r = Interp(prog, assume=assume).run(
+            r = Interp(prog, assume=assume, inline=_helpers).run(
                 g, {"length_unit": tm.enum(uq, unit),
                     "plot_mode": tm.enum(pmq, mode)})
             fm = [e for e in r.of_kind("call")
@@ -525,7 +525,7 @@ def _formatter(ctx, prog):
                    f"prepare_axis[{unit},{mode}]: formatter installed on "
                    f"{axes}, expected {want}",
                    key=f"C20.5:installed:{unit}:{mode}")
-    r = Interp(prog).run(g, {"length_unit": tm.enum(uq, "seconds")})
+    r = Interp(prog, inline=_helpers).run(g, {"length_unit": tm.enum(uq, "seconds")})
     ok = any("PlotException" in (e.data.get("exc_name") or "") and
              tm.is_const(e.live, True) for e in r.of_kind("raise"))
     ctx.ob("C20.5", g, ok,
